@@ -84,7 +84,7 @@ class ConnEnv(object):
             self._frame_left = 24
             self._frame_state = "hdr"
             self._hdr = bytearray()
-        if n > self._frame_left:
+        if n > self._frame_left and getattr(self, "track", True):
             self.over_request += 1
         for b in got:
             if self._frame_left == 0:
@@ -95,6 +95,8 @@ class ConnEnv(object):
                 self._hdr.append(b)
             self._frame_left -= 1
             if self._frame_left == 0 and self._frame_state == "hdr":
+                if bytes(self._hdr[0:4]) not in (b"AUTH", b"CLSE", b"CNXN", b"OKAY", b"OPEN", b"SYNC", b"WRTE"):
+                    self.track = False     # the host rejects this header without reading its payload: frame sync is lost from here on
                 ln = int.from_bytes(self._hdr[12:16], "little")
                 if ln:
                     self._frame_left = ln
@@ -140,6 +142,8 @@ class Link(object):
         if c.is_eof:
             self.clock.now += c.dt
             c.calls.append(("r", n, 0))
+            if len(c.calls) > 400000:
+                raise SimHang()          # watchdog: an endless loop of empty reads in zero virtual time
             return b""
         f = c.next_fault("in", c.in_off)
         if f is not None:
